@@ -162,40 +162,73 @@ theorem pushUpdate_spec {kf : KF} (hkf : KFOK kf) (st : St) (b : Base) (hsb : st
   have hdu : denOp st.base (.upd pos pn) = [⟨b.node.items[pos].key, pn, false⟩] := by
     simp [denOp, hsb, baseItems, List.getElem?_eq_getElem hp]
   have hnv : (!st.valid) = false := by rw [hv]; rfl
-  simp only [pushUpdate, hnv, Bool.false_eq_true, if_false, Gauge.ingestOp, hk, Option.map_some]
-  by_cases hc : b.node.pc ≤ pos ∨ (st.gauge.ingestKey kf b.node.items[pos].key (kf.sl b.node.items[pos].key)).pc.isSome = true
-  · simp only [hc, if_true, replaceOp, hk, Option.map_some]
+  -- the two outcomes
+  have hrep : ∃ st', (replaceOp (some b) (.upd pos pn)).map (fun r => ({ st with
+        gauge := st.gauge.ingestKey kf b.node.items[pos].key (kf.sl b.node.items[pos].key), ops := st.ops ++ r } : St)) = some st' ∧
+      st'.base = st.base ∧ st'.cutoff = st.cutoff ∧ st'.valid = true ∧
+      den st'.base st'.ops = den st.base st.ops ++ [⟨b.node.items[pos].key, pn, false⟩] ∧
+      TrOK kf st'.base st'.ops st'.gauge := by
+    simp only [replaceOp, hk, Option.map_some]
     refine ⟨_, rfl, rfl, rfl, hv, by simp [denOp], ?_⟩
     refine ⟨wf_append.2 ⟨h.wf, wf_cons.2 ⟨trivial, wf_nil _ _⟩⟩, by simpa [denOp] using hg, ?_⟩
-    have := (h.push_ins hkf hpcle b.node.items[pos].key pn hs hbl).pc
-    exact this
-  · simp only [hc, if_false]
-    have hc' := not_or.1 hc
+    exact (h.push_ins hkf hpcle b.node.items[pos].key pn hs hbl).pc
+  have hkeep : pos < b.node.pc →
+      (st.gauge.ingestKey kf b.node.items[pos].key (kf.sl b.node.items[pos].key)).pc = none → NoShort kf b pos →
+      ∃ st', some ({ st with gauge := st.gauge.ingestKey kf b.node.items[pos].key (kf.sl b.node.items[pos].key),
+                             ops := st.ops ++ [.upd pos pn] } : St) = some st' ∧
+      st'.base = st.base ∧ st'.cutoff = st.cutoff ∧ st'.valid = true ∧
+      den st'.base st'.ops = den st.base st.ops ++ [⟨b.node.items[pos].key, pn, false⟩] ∧
+      TrOK kf st'.base st'.ops st'.gauge := by
+    intro hpc hnone hns
     have hwf : WF kf st.base (st.ops ++ [.upd pos pn]) :=
-      wf_append.2 ⟨h.wf, wf_cons.2 ⟨⟨b, hsb, by omega⟩, wf_nil _ _⟩⟩
+      wf_append.2 ⟨h.wf, wf_cons.2 ⟨⟨b, hsb, hpc, hns⟩, wf_nil _ _⟩⟩
     refine ⟨_, rfl, rfl, rfl, hv, by simp [hdu], hwf, by simpa [hdu] using hg, ?_⟩
-    have hnone : (st.gauge.ingestKey kf b.node.items[pos].key (kf.sl b.node.items[pos].key)).pc = none := by
-      cases hx : (st.gauge.ingestKey kf b.node.items[pos].key (kf.sl b.node.items[pos].key)).pc with
-      | none => rfl
-      | some c => rw [hx] at hc'; simp at hc'
     apply PCOK.of_count
     simp only
     rw [pcItems_ge_of_none hnone, hg.n, ← den_length hpcle hwf]
     simp [hdu]
+  simp only [pushUpdate, hnv, Bool.false_eq_true, if_false, Gauge.ingestOp, hk, Option.map_some]
+  by_cases hc : b.node.pc ≤ pos ∨ (st.gauge.ingestKey kf b.node.items[pos].key (kf.sl b.node.items[pos].key)).pc.isSome = true
+  · simp only [hc, if_true]
+    exact hrep
+  · simp only [hc, if_false]
+    have hc' := not_or.1 hc
+    have hnone : (st.gauge.ingestKey kf b.node.items[pos].key (kf.sl b.node.items[pos].key)).pc = none := by
+      cases hx : (st.gauge.ingestKey kf b.node.items[pos].key (kf.sl b.node.items[pos].key)).pc with
+      | none => rfl
+      | some c => rw [hx] at hc'; simp at hc'
+    have h0 : 0 < b.node.items.length := by omega
+    unfold shortFirst
+    by_cases hcz : (kf.canon && pos == 0) = true
+    · simp only [hcz, if_true, Node.key_of_lt _ _ h0, Option.map_some]
+      by_cases hshort : kf.sl b.node.items[0].key < b.node.pl
+      · simp only [hshort, decide_true]
+        exact hrep
+      · simp only [hshort, decide_false]
+        apply hkeep (by omega) hnone
+        intro _ _ k hk0
+        rw [Node.key_of_lt _ _ h0] at hk0
+        cases hk0
+        omega
+    · simp only [hcz, Bool.false_eq_true, if_false]
+      apply hkeep (by omega) hnone
+      intro hcan hpos0
+      exfalso
+      apply hcz
+      simp [hcan, hpos0]
 
-theorem pushChunk_spec {kf : KF} (hkf : KFOK kf) (st : St) (b : Base) (hsb : st.base = some b) (hv : st.valid = true)
-    (h : TrOK kf st.base st.ops st.gauge) (hbase : BaseOK kf st.base) (s e : Nat) (hse : s < e)
-    (he : e ≤ b.node.items.length)
+theorem pushChunkFrom_spec {kf : KF} (hkf : KFOK kf) (st : St) (b : Base) (hsb : st.base = some b) (hv : st.valid = true)
+    (h : TrOK kf st.base st.ops st.gauge) (hbase : BaseOK kf st.base) (s e : Nat) (hse : s ≤ e)
+    (he : e ≤ b.node.items.length) (hns : NoShort kf b s)
     (hs : SortedK (ekeys (den st.base st.ops) ++ chunkKeys b s e))
     (hbl : Below (ekeys (den st.base st.ops) ++ chunkKeys b s e)) :
-    ∃ st', pushChunk kf st b s e = some st' ∧ st'.base = st.base ∧ st'.cutoff = st.cutoff ∧ st'.valid = true ∧
+    ∃ st', pushChunkFrom kf st b s e = some st' ∧ st'.base = st.base ∧ st'.cutoff = st.cutoff ∧ st'.valid = true ∧
       den st'.base st'.ops = den st.base st.ops ++ ents (slice b.node.items s e) ∧
       TrOK kf st'.base st'.ops st'.gauge := by
   have hnode := (hbase b hsb).1
   have hpcle := hbase.pc_le
   have hpcn := hnode.pc_le
-  have hnv : (!st.valid) = false := by rw [hv]; rfl
-  simp only [pushChunk, hnv, Bool.false_eq_true, if_false]
+  simp only [pushChunkFrom]
   generalize hbce : max (min e b.node.pc) s = bce
   have hb1 : s ≤ bce := by omega
   have hb2 : bce ≤ e := by omega
@@ -222,7 +255,7 @@ theorem pushChunk_spec {kf : KF} (hkf : KFOK kf) (st : St) (b : Base) (hsb : st.
         rw [← hsplitK, ← List.append_assoc] at hbl; exact hbl.append_left
       obtain ⟨g', g1, g2, g3, _⟩ := h.gauge.ingestChunk hkf b s bce hlt (by omega) hs' hbl'
       simp only [g1]
-      have hok : OpOK kf st.base (.keep s bce (slSum kf (chunkKeys b s bce))) := ⟨b, hsb, hlt, hbpc, rfl⟩
+      have hok : OpOK kf st.base (.keep s bce (slSum kf (chunkKeys b s bce))) := ⟨b, hsb, hlt, hbpc, rfl, hns⟩
       have hdk : denOp st.base (.keep s bce (slSum kf (chunkKeys b s bce))) = ents (slice b.node.items s bce) := by
         simp [denOp, hsb, baseItems]
       have hgk : GOK kf g' (ekeys (den st.base st.ops ++ ents (slice b.node.items s bce))) := by
@@ -260,5 +293,66 @@ theorem pushChunk_spec {kf : KF} (hkf : KFOK kf) (st : St) (b : Base) (hsb : st.
     (by rw [e7, e5, ekeys_append, ← chunkKeys_eq, List.append_assoc, hsplitK]; exact hbl)
   refine ⟨st2, f1, by rw [f2, e2], by rw [f3, e3], f4, ?_, f6⟩
   rw [f5, e5, e7, List.append_assoc, ← ents_append, hsplitS]
+
+theorem pushChunk_spec {kf : KF} (hkf : KFOK kf) (st : St) (b : Base) (hsb : st.base = some b) (hv : st.valid = true)
+    (h : TrOK kf st.base st.ops st.gauge) (hbase : BaseOK kf st.base) (s e : Nat) (hse : s < e)
+    (he : e ≤ b.node.items.length)
+    (hs : SortedK (ekeys (den st.base st.ops) ++ chunkKeys b s e))
+    (hbl : Below (ekeys (den st.base st.ops) ++ chunkKeys b s e)) :
+    ∃ st', pushChunk kf st b s e = some st' ∧ st'.base = st.base ∧ st'.cutoff = st.cutoff ∧ st'.valid = true ∧
+      den st'.base st'.ops = den st.base st.ops ++ ents (slice b.node.items s e) ∧
+      TrOK kf st'.base st'.ops st'.gauge := by
+  have hnv : (!st.valid) = false := by rw [hv]; rfl
+  have hsl : s < b.node.items.length := by omega
+  have h0 : 0 < b.node.items.length := by omega
+  simp only [pushChunk, hnv, Bool.false_eq_true, if_false, pushChunkShort, hse, if_true]
+  -- without a short first separator the chunk starts at `s`
+  have plain : NoShort kf b s →
+      ∃ st', pushChunkFrom kf st b s e = some st' ∧ st'.base = st.base ∧ st'.cutoff = st.cutoff ∧ st'.valid = true ∧
+        den st'.base st'.ops = den st.base st.ops ++ ents (slice b.node.items s e) ∧ TrOK kf st'.base st'.ops st'.gauge :=
+    fun hns => pushChunkFrom_spec hkf st b hsb hv h hbase s e (Nat.le_of_lt hse) he hns hs hbl
+  unfold shortFirst
+  by_cases hcz : (kf.canon && s == 0) = true
+  · simp only [hcz, if_true, Node.key_of_lt _ _ h0, Option.map_some]
+    have hs0 : s = 0 := by
+      simp only [Bool.and_eq_true, beq_iff_eq] at hcz; exact hcz.2
+    by_cases hshort : kf.sl b.node.items[0].key < b.node.pl
+    · simp only [hshort, decide_true]
+      -- the first separator becomes an `Insert`, the chunk starts behind it
+      subst hs0
+      simp only [Node.keyValue, List.getElem?_eq_getElem h0, Option.map_some]
+      have hck := chunkKeys_cons b 0 e hse h0
+      rw [hck] at hs hbl
+      have hs1 : SortedK (ekeys (den st.base st.ops) ++ [b.node.items[0].key]) := by
+        have : ekeys (den st.base st.ops) ++ b.node.items[0].key :: chunkKeys b (0 + 1) e =
+            (ekeys (den st.base st.ops) ++ [b.node.items[0].key]) ++ chunkKeys b (0 + 1) e := by simp
+        rw [this] at hs; exact hs.append_left
+      have hb1 : Below (ekeys (den st.base st.ops) ++ [b.node.items[0].key]) := by
+        intro k hk
+        apply hbl k
+        rcases List.mem_append.1 hk with h1 | h1
+        · exact List.mem_append_left _ h1
+        · simp at h1; rw [h1]; simp
+      obtain ⟨st1, e1, e2, e3, e4, e5, e6⟩ := pushInsert_spec hkf st hv h hbase b.node.items[0].key b.node.items[0].pn hs1 hb1
+      simp only [e1, Option.map_some]
+      have hden1 : den st1.base st1.ops = den st.base st.ops ++ [b.node.items[0].ent] := by
+        rw [e5, e2]; simp [denOp, Item.ent]
+      obtain ⟨st2, f1, f2, f3, f4, f5, f6⟩ := pushChunkFrom_spec hkf st1 b (by rw [e2]; exact hsb) e4 e6
+        (by rw [e2]; exact hbase) (0 + 1) e (by omega) he (fun _ hh => absurd hh (by omega))
+        (by rw [hden1]; simpa [Item.ent] using hs) (by rw [hden1]; simpa [Item.ent] using hbl)
+      refine ⟨st2, f1, by rw [f2, e2], by rw [f3, e3], f4, ?_, f6⟩
+      rw [f5, hden1, slice_cons_of_lt _ _ _ hse h0]; simp
+    · simp only [hshort, decide_false]
+      apply plain
+      intro _ _ k hk0
+      rw [Node.key_of_lt _ _ h0] at hk0
+      cases hk0
+      omega
+  · simp only [hcz, Bool.false_eq_true, if_false]
+    apply plain
+    intro hcan hpos0
+    exfalso
+    apply hcz
+    simp [hcan, hpos0]
 
 end Nomt.BranchUpd
